@@ -141,7 +141,7 @@ func c18Family(t *rapid.T, ev *evProp, fam string, gis []*GroupInfo, withModel b
 		case "pmulbase":
 			k := ri("k")
 			for _, im := range impls {
-				im.pt[r] = markVT(im.gi, im.gi.G.Point().Mul(im.sc[k], nil))
+				im.pt[r] = (newPoint(im.gi).Mul(im.sc[k], nil))
 			}
 			if ref != nil {
 				modelPt[r] = ref.Mul(modelSc[k], ref.Base())
@@ -151,7 +151,7 @@ func c18Family(t *rapid.T, ev *evProp, fam string, gis []*GroupInfo, withModel b
 		case "pmul":
 			k, a := ri("k"), ri("a")
 			for _, im := range impls {
-				im.pt[r] = markVT(im.gi, im.gi.G.Point().Mul(im.sc[k], im.pt[a]))
+				im.pt[r] = (newPoint(im.gi).Mul(im.sc[k], im.pt[a]))
 			}
 			if ref != nil {
 				modelPt[r] = ref.Mul(modelSc[k], modelPt[a])
@@ -162,9 +162,9 @@ func c18Family(t *rapid.T, ev *evProp, fam string, gis []*GroupInfo, withModel b
 			a, b := ri("a"), ri("b")
 			for _, im := range impls {
 				if op == "padd" {
-					im.pt[r] = markVT(im.gi, im.gi.G.Point().Add(im.pt[a], im.pt[b]))
+					im.pt[r] = (newPoint(im.gi).Add(im.pt[a], im.pt[b]))
 				} else {
-					im.pt[r] = markVT(im.gi, im.gi.G.Point().Sub(im.pt[a], im.pt[b]))
+					im.pt[r] = (newPoint(im.gi).Sub(im.pt[a], im.pt[b]))
 				}
 			}
 			if ref != nil {
@@ -179,9 +179,9 @@ func c18Family(t *rapid.T, ev *evProp, fam string, gis []*GroupInfo, withModel b
 			a := ri("a")
 			for _, im := range impls {
 				if op == "pneg" {
-					im.pt[r] = markVT(im.gi, im.gi.G.Point().Neg(im.pt[a]))
+					im.pt[r] = (newPoint(im.gi).Neg(im.pt[a]))
 				} else {
-					im.pt[r] = markVT(im.gi, im.gi.G.Point().Add(im.pt[a], im.pt[a]))
+					im.pt[r] = (newPoint(im.gi).Add(im.pt[a], im.pt[a]))
 				}
 			}
 			if ref != nil {
